@@ -60,6 +60,9 @@ def hMaxCreation (inp out : Json) : Except String Findings := do
   let fs : Findings := #[]
   let fs := diff fs "maxCreation" impl (outcomeStr m)
   let fs := spec fs "C09.ramp" (Spec.C09.rampOk ru nbNodes start now impl)
+  -- no crash whenever the pointers defaulting fills are set
+  let fs := if ru.slowStartInterval.isSome && ru.maxParallelPodCreation.isSome then
+      spec fs "C16.no-crash(calculateMaxCreation)" (impl != "panic") else fs
   return fs
 
 /-! ### strategy streams (ManageDeployment / manageCanaryStatus / ManageUnknown) -/
@@ -188,6 +191,67 @@ def hManageDeployment (inp out : Json) : Except String Findings := do
                   | _ => false))
       return fs
 
+/-! ### manageCanaryStatus -/
+def hManageCanary (inp out : Json) : Except String Findings := do
+  let pj : StratParamsJ ← fromJson? inp
+  let o : StratResultJ ← fromJson? out
+  let p := pj.toParams
+  let fs : Findings := #[]
+  match manageCanaryStatus p pj.now with
+  | none => return diff fs "kind" o.kind "panic"
+  | some m =>
+    if o.kind != "ok" then return diff fs "kind" o.kind "ok" else
+    let fs := diff fs "newStatus" (statusOptStr o.newStatus) (statusOptStr m.newStatus)
+    let fs := diff fs "isPaused" o.isPaused m.isPaused
+    let fs := diff fs "pausedReason" o.pausedReason m.pausedReason
+    let fs := diff fs "isUnpaused" o.isUnpaused m.isUnpaused
+    let fs := diff fs "isFailed" o.isFailed m.isFailed
+    let fs := diff fs "failedReason" o.failedReason m.failedReason
+    let fs := diff fs "requeue" o.requeue m.requeue
+    let fs := diff fs "requeueAfter" o.requeueAfter m.requeueAfter
+    let fs := diff fs "create" o.create m.podsToCreate
+    let fs := diff fs "delete" (o.delete.map (·.node)) m.podsToDelete
+    -- specification (property text) on the implementation's output
+    let scan := p.canaryNodes.foldl (canaryScanStep p.ers.templateGeneration p.byNode) {}
+    let pods := scan.toCheck
+    match canaryDerefs p.strategy.canary with
+    | none => return fs
+    | some (ape, apm, slow, afe, afm, mrd, cto) =>
+      let cfg : Spec.C06.Cfg := { autoPauseEnabled := ape, autoPauseMaxRestarts := apm, maxSlowStart := slow,
+                                  autoFailEnabled := afe, autoFailMaxRestarts := afm,
+                                  maxRestartsDuration := mrd, canaryTimeout := cto }
+      let span := (findCond p.newStatus.conds "PodRestarting").map (fun rc => rc.lastUpdate - rc.lastTransition)
+      let age := (findCond p.newStatus.conds "Canary").map (fun c => pj.now - c.lastTransition)
+      let failedBefore := isCanaryFailed (some p.ers)
+      let pausedBefore := (isCanaryPaused p.edsAnnotations (some p.ers)).1
+      let unpaused := isCanaryUnpaused p.edsAnnotations
+      let fs := if pods.isEmpty then fs else
+        spec fs "C06.failed-iff" (o.isFailed == Spec.C06.expectFailed cfg failedBefore span age pods)
+      let fs := spec fs "C06.failed-sticky" (!failedBefore || o.isFailed)
+      let fs := if pods.isEmpty || o.isFailed then fs else
+        spec fs "C06.paused-iff" (o.isPaused == Spec.C06.expectPaused cfg pausedBefore unpaused pj.now pods)
+      let fs := spec fs "C06.blocks-creation" (!(o.isPaused || o.isFailed) || o.create.isEmpty)
+      let fs := spec fs "C06.condition-failed" (match o.newStatus with
+                  | some st => isCondTrue st.conds "Canary-Failed" == o.isFailed
+                  | none => false)
+      -- C08: a canary resumes on unpause (full statement, including the zero-pod case)
+      let fs := spec fs "C08.canary-resumes-on-unpause" (!(unpaused && !o.isFailed) || !o.isPaused)
+      let fs := spec fs "C04.canary-creates-in-list" (isSubset o.create p.canaryNodes)
+      return fs
+
+def hManageUnknown (inp out : Json) : Except String Findings := do
+  let pj : StratParamsJ ← fromJson? inp
+  let o : StratResultJ ← fromJson? out
+  let p := pj.toParams
+  let m := manageUnknown p pj.wall
+  let fs : Findings := #[]
+  let fs := diff fs "kind" o.kind "ok"
+  let fs := diff fs "newStatus" (statusOptStr o.newStatus) (statusOptStr m.newStatus)
+  let fs := diff fs "requeue" o.requeue m.requeue
+  let fs := diff fs "requeueAfter" o.requeueAfter m.requeueAfter
+  let fs := spec fs "C04.unknown-inert" (o.create.isEmpty && o.delete.isEmpty)
+  return fs
+
 /-! ### selectCurrentReplicaSet -/
 def hSelectCurrent (inp out : Json) : Except String Findings := do
   let d : EDS ← get inp "eds"
@@ -214,11 +278,99 @@ def hSelectCurrent (inp out : Json) : Except String Findings := do
     else fs
   return fs
 
+/-! ### BuildInfoLabels -/
+def hLabels (inp out : Json) : Except String Findings := do
+  let labels : SMap ← get inp "labels"
+  let keys : List String ← get out "keys"
+  let values : List String ← get out "values"
+  let san : List (List String) ← get out "sanitize"
+  let m := buildInfoLabels labels
+  let fs : Findings := #[]
+  let fs := diff fs "keys" keys (m.map (·.1))
+  let fs := diff fs "values" values (m.map (·.2))
+  let fs := san.foldl (fun fs pr => match pr with
+    | [k, v] => diff fs s!"sanitize({k})" v (sanitizeLabelName k)
+    | _ => fs) fs
+  let fs := spec fs "C20.pairs" (Spec.C20.holds labels keys values)
+  return fs
+
+/-! ### Default / IsDefaulted / Validate -/
+def validateStr : ValidateResult → String
+  | .ok => "ok" | .errAutoFailRestarts => "errAutoFailRestarts" | .errCanaryTimeout => "errCanaryTimeout"
+  | .errDurationManual => "errDurationManual" | .errNoRestartsManual => "errNoRestartsManual" | .panic => "panic"
+
+def hDefaults (inp out : Json) : Except String Findings := do
+  let s : Strategy ← get inp "strategy"
+  let tn : String ← get inp "templateName"
+  let mode : String ← get inp "defaultMode"
+  let isDef : Bool ← get out "isDefaulted"
+  let isDefPanic : Bool ← get out "isDefaultedPanic"
+  let vraw : String ← get out "validateRaw"
+  let dpanic : Bool ← get out "defaultPanic"
+  let fs : Findings := #[]
+  let fs := diff fs "isDefaulted" isDef (isDefaulted s tn)
+  let fs := diff fs "isDefaultedPanic" isDefPanic false
+  let fs := diff fs "validateRaw" vraw (validateStr (validateSpec s))
+  let fs := diff fs "defaultPanic" dpanic false
+  if dpanic then return spec fs "C16.default-no-crash" false else
+  let d : Strategy ← get out "defaulted"
+  let dtn : String ← get out "defaultedTemplateName"
+  let dIsDef : Bool ← get out "defaultedIsDefaulted"
+  let d2 : Strategy ← get out "defaultedTwice"
+  let vdef : String ← get out "validateDefaulted"
+  let m := defaultSpec s mode
+  let fs := diff fs "defaulted" (toString (repr d)) (toString (repr m.1))
+  let fs := diff fs "defaultedTemplateName" dtn m.2
+  let fs := diff fs "validateDefaulted" vdef (validateStr (validateSpec m.1))
+  let fs := spec fs "C16.recognised" dIsDef
+  let fs := spec fs "C16.idempotent" (d2 == d)
+  let fs := spec fs "C16.preserves-user" (Spec.C16.preserves s d && dtn == "")
+  let fs := spec fs "C16.fills" (Spec.C16.fills d)
+  let fs := spec fs "C16.validate-no-crash" (vdef != "panic")
+  return fs
+
+/-! ### searchPossibleConflict -/
+def hSettingConflict (inp out : Json) : Except String Findings := do
+  let inst : Setting ← get inp "inst"
+  let nodes : List Node ← get inp "nodes"
+  let settings : List Setting ← get inp "settings"
+  let res : String ← get out "res"
+  let m := match searchConflict inst nodes settings with
+    | .none => "none"
+    | .conflict o => "err:" ++ o
+    | .selectorError => "err:"
+  let fs : Findings := #[]
+  let fs := diff fs "conflict" res m
+  -- lonely valid: a well-formed setting whose selector overlaps no other usable setting on any node
+  -- must not be in conflict
+  let overlaps := nodes.any (fun n =>
+    (settingMatches inst n.labels).getD false &&
+    settings.any (fun s => s.name != inst.name && (settingMatches s n.labels).getD false))
+  let fs := if inst.badSelector || overlaps then fs else spec fs "C18.lonely-valid" (res == "none")
+  return fs
+
+/-! ### CheckNodeFitness -/
+def hFitness (inp out : Json) : Except String Findings := do
+  let t : Template ← get inp "template"
+  let n : Node ← get inp "node"
+  let f : Bool ← get out "fit"
+  let pn : Bool ← get out "panic"
+  let fs : Findings := #[]
+  let fs := diff fs "panic" pn false
+  let fs := diff fs "fit" f (fit t n)
+  return fs
+
 def handlers : List (String × (Json → Json → Except String Findings)) := [
   ("limits", hLimits),
   ("max_creation", hMaxCreation),
   ("manage_deployment", hManageDeployment),
-  ("select_current", hSelectCurrent)
+  ("select_current", hSelectCurrent),
+  ("manage_canary", hManageCanary),
+  ("manage_unknown", hManageUnknown),
+  ("labels", hLabels),
+  ("defaults", hDefaults),
+  ("setting_conflict", hSettingConflict),
+  ("fitness", hFitness)
 ]
 
 def handleLine (line : String) : String :=
